@@ -202,24 +202,23 @@ def render_value(v):
 
 
 def expected_streams(model_out, nsrc):
-    """Splits the model's stream into the harness steps (script1, jobs1[, script2, jobs2]) and formats
-    the events as the harness does.  Returns list of steps; each step = list of (kind, text)."""
+    """Splits the model's (compact) stream into the harness steps (script1, jobs1[, script2, jobs2]) and
+    formats the events as the harness does.  Returns list of steps; each step = list of strings, the first
+    character being the kind of the event (p print, j job enqueue/run, k tracker)."""
     steps = [[]]
     for ev in model_out:
-        e = ev["e"]
-        if e == "phase":
-            if ev["p"] != "done":
+        e = ev[0]
+        if e == "P":
+            if ev[1] != "done":
                 steps.append([])
-            continue
-        if e == "print":
-            txt = " ".join([f"s:{ev['l']}"] + [render_value(v) for v in ev["vs"]])
-            steps[-1].append(("p", txt))
-        elif e == "enq":
-            steps[-1].append(("j", f"J+{ev['id']}"))
-        elif e == "run":
-            steps[-1].append(("j", f"J>{ev['id']}"))
-        elif e == "trk":
-            steps[-1].append(("k", f"K:{ev['op']}"))
+        elif e == "p":
+            steps[-1].append("p" + " ".join([f"s:{ev[1]}"] + [render_value(v) for v in ev[2]]))
+        elif e == "+":
+            steps[-1].append(f"jJ+{ev[1]}")
+        elif e == ">":
+            steps[-1].append(f"jJ>{ev[1]}")
+        elif e == "k":
+            steps[-1].append(f"kK:{ev[1]}")
         else:
             raise vlib.ToolError(f"unknown model event {ev}")
     if len(steps) != 2 * nsrc:
@@ -228,7 +227,7 @@ def expected_streams(model_out, nsrc):
 
 
 def proj(step, kinds):
-    return [t for (k, t) in step if k in kinds]
+    return [t[1:] for t in step if t[0] in kinds]
 
 
 def classify(line):
@@ -249,13 +248,13 @@ def interleaves(model_out):
     cur = None
     in_jobs = False
     for ev in model_out:
-        if ev["e"] == "run":
+        if ev[0] == ">":
             in_jobs = True
             cur = None
-        elif ev["e"] == "phase":
+        elif ev[0] == "P":
             in_jobs = False
-        elif ev["e"] == "print" and in_jobs and cur is None:
-            m = LABEL_TASK.match("s:" + ev["l"])
+        elif ev[0] == "p" and in_jobs and cur is None:
+            m = LABEL_TASK.match("s:" + ev[1])
             if m:
                 cur = int(m.group(1))
                 owners.append(cur)
@@ -277,20 +276,32 @@ def budgets():
 
 
 def modes_for(rng, tier, idx):
+    """Schedules of one scenario.  The budget sweep is ascending and stops (inside hasync) after the first
+    budget under which nothing yielded: larger budgets give that very execution; 2^20 always runs."""
     bs = budgets()
-    ms = [{"m": "sync"}]
     if tier == "thorough":
         chosen = bs
     else:
         small = [1, 2, 3, 5, 8]
         rest = [b for b in bs if b not in small and b != (1 << 20)]
-        chosen = small + sorted(rng.sample(rest, 2)) + [1 << 20]
-    for b in chosen:
-        ms.append({"m": "async", "budget": b, "seed": rng.randrange(1, 1 << 30)})
-    ms.append({"m": "count", "seed": rng.randrange(1, 1 << 30)})
+        chosen = small + sorted(rng.sample(rest, 3)) + [1 << 20]
+    ms = [{"m": "sync"}, {"m": "sweep", "budgets": chosen, "seed": rng.randrange(1, 1 << 30)},
+          {"m": "count", "seed": rng.randrange(1, 1 << 30)}]
     if idx % 7 == 0:
         ms.append({"m": "eval"})
     return ms
+
+
+def flatten_modes(ms, got_res):
+    """-> list of (mode, result) with the sweep expanded into its async runs."""
+    out = []
+    for mode, g in zip(ms, got_res):
+        if mode["m"] == "sweep" and "sweep" in g:
+            for e in g["sweep"]:
+                out.append(({"m": "async", "budget": e.get("budget"), "seed": mode["seed"], "of": "sweep"}, e))
+        else:
+            out.append((mode, g))
+    return out
 
 
 # ---------------------------------------------------------------- running
@@ -312,7 +323,7 @@ def run_parallel(binary, items, procs):
     return res
 
 
-def compare(rec, exp_steps, mode, got):
+def compare(exp_steps, mode, got):
     """-> list of (projection, step index, expected, actual) mismatches; projection in p|k|j|c|panic."""
     bad = []
     if "panic" in got or "abort" in got:
@@ -331,6 +342,12 @@ def compare(rec, exp_steps, mode, got):
                 bad.append(("k", k, proj(es, "pk"), [t for (c, t) in lines if c in "pk"]))
             if proj(es, "pj") != [t for (c, t) in lines if c in "pj"]:
                 bad.append(("j", k, proj(es, "pj"), [t for (c, t) in lines if c in "pj"]))
+    if got.get("jobs") is not None:
+        # events recorded inside SimpleJobExecutor by the cfg(boa_verif) hook: implementation-shaped too
+        want = [[t[1], int(t[2:])] for es in exp_steps for t in proj(es, "j")]
+        have = [[{"e": "+", "r": ">"}[k], i] for k, i in got["jobs"]]
+        if want != have:
+            bad.append(("j", len(exp_steps), want, have))
     return bad
 
 
@@ -424,30 +441,84 @@ def generate_random(rng, count):
     return out
 
 
-def tlc_scenarios(module, workers, coverage, env_extra=None, timeout=1500, cfg=None):
-    recs = []
-
+def tlc_scenarios(module, workers, coverage, env_extra=None, timeout=1700, cfg=None, on_replay=None):
     def on_tagged(tag, obj):
         if tag == "REPLAY":
-            recs.append(obj)
+            on_replay(obj)
 
     r = vlib.run_tlc(os.path.join(SPEC_DIR, module + ".tla"), cfg or (module + ".cfg"), workers=workers, coverage=coverage,
                      on_tagged=on_tagged, env_extra=env_extra, timeout=timeout)
     vlib.tlc_must_pass(r, "Promises/" + module)
-    return r, recs
+    return r
 
 
-ACTIONS = ("ScriptStep", "TaskStep", "RunJob", "Quiesce")
+def validate_job_traces(traces, max_report):
+    """Mode (B): `traces` = list of (key, events) recorded by the hook inside SimpleJobExecutor.  All of them
+    are concatenated (reset events in between) and validated against spec/async/JobQueue.tla by TLC.
+    Returns (states, [key of each rejected trace, with the index of the unmatched event])."""
+    rejected = []
+    states = 0
+    todo = list(traces)
+    while todo and len(rejected) < max_report:
+        path = os.path.join(vlib.WORK, f"c16-trace-{os.getpid()}.ndjson")
+        starts = []
+        n = 0
+        with open(path, "w") as f:
+            for key, evs in todo:
+                starts.append(n)
+                for k, i in evs:
+                    f.write('{"e":"%s","id":%d}\n' % (k, i))
+                f.write('{"e":"reset","id":0}\n')
+                n += len(evs) + 1
+        try:
+            r = vlib.run_tlc(os.path.join(SPEC_DIR, "JobQueueTrace.tla"), "JobQueueTrace.cfg", workers=1, dfs=True,
+                             env_extra={"TRACE": path}, timeout=1500)
+        finally:
+            os.unlink(path)
+        states += r["distinct"]
+        if r["ok"]:
+            break
+        um = [o for t, o in r["tagged"] if t == "UNMATCHED"]
+        if not um:
+            vlib.log(r["raw_tail"])
+            raise vlib.ToolError("trace validation failed without an UNMATCHED report")
+        at = um[0]["at"] - 1          # 0-based index of the first unmatched event
+        k = max(j for j, st in enumerate(starts) if st <= at)
+        rejected.append((todo[k][0], at - starts[k], todo[k][1]))
+        todo = todo[:k] + todo[k + 1:]
+    return states, rejected
 
 
-def check_coverage(raw_tail):
-    """thorough tier: every action of the spec was taken (TLC -coverage prints <Action line ...>: n:m)."""
-    missing = []
-    for a in ACTIONS:
-        m = re.search(r"<%s line[^>]*>: (\d+):(\d+)" % a, raw_tail)
-        if m is None or int(m.group(2)) == 0:
-            missing.append(a)
-    return missing
+# What the behaviours emitted by TLC must contain for the run to count (vacuity control on the model side):
+# every action of Promises.tla (ScriptStep: any print of script 1; TaskStep: a "go"/"gg" label; RunJob: a ">"
+# event; Quiesce: the "done" phase and, for scenarios with a late part, "script2") and every kind of program
+# point of the scenario language (label prefixes).
+REQUIRED_LABELS = {"go", "aw", "ca", "ok", "err", "f", "r", "n", "o", "gg", "yi", "ys", "gq", "ge"}
+REQUIRED_EVENTS = {"p", "+", ">", "k", "P:jobs1", "P:script2", "P:jobs2", "P:done"}
+LABEL_KIND = re.compile(r"^([a-z]+)\d")
+
+
+def coverage_of(model_out, acc):
+    for ev in model_out:
+        if ev[0] == "p":
+            m = LABEL_KIND.match(ev[1])
+            acc["L:" + (m.group(1) if m else "?")] = acc.get("L:" + (m.group(1) if m else "?"), 0) + 1
+            acc["p"] = acc.get("p", 0) + 1
+        elif ev[0] == "P":
+            acc["P:" + ev[1]] = acc.get("P:" + ev[1], 0) + 1
+        else:
+            acc[ev[0]] = acc.get(ev[0], 0) + 1
+
+
+def check_coverage(acc):
+    return sorted([l for l in REQUIRED_LABELS if not acc.get("L:" + l)] + [e for e in REQUIRED_EVENTS if not acc.get(e)])
+
+
+def jobs_in(exp_steps):
+    return sum(1 for st in exp_steps for t in st if t.startswith("jJ>"))
+
+
+CHUNK = 3000
 
 
 def run(tier, replay=None):
@@ -457,6 +528,7 @@ def run(tier, replay=None):
     binary = os.path.join(bindir, "hasync")
     ncpu = os.cpu_count() or 4
     workers = min(8, max(2, ncpu // 2))
+    procs = max(2, min(14, ncpu - 2))
 
     # 1. seeded scenarios beyond the exhaustive bound: INPUTS only, their expectations come from TLC too
     n_rand = 150 if tier == "quick" else 3000
@@ -468,102 +540,143 @@ def run(tier, replay=None):
         for x in rnd:
             f.write(json.dumps(x) + "\n")
 
-    # 2. model gate + scenario enumeration (one TLC run: exhaustive universes + the sampled scenarios)
+    # 2. model gate + scenario enumeration (one TLC run: exhaustive universes + the sampled scenarios);
+    #    every emitted behaviour is reduced at once to (scenario, expected observation per harness step)
     module = "MCPromisesQuick" if tier == "quick" else "MCPromisesThorough"
+    exp = []            # (scn, exp_steps)
+    nontrivial = [0]
+
+    cover = {}
+
+    def on_replay(rec):
+        scn = rec["scn"]
+        coverage_of(rec["out"], cover)
+        exp.append((scn, expected_streams(rec["out"], 2 if scn["late"] else 1)))
+        if interleaves(rec["out"]):
+            nontrivial[0] += 1
+
     try:
-        r, recs = tlc_scenarios(module, workers, coverage=(tier == "thorough"), env_extra={"SCN": path})
+        r = tlc_scenarios(module, workers, coverage=False, env_extra={"SCN": path}, on_replay=on_replay)
     finally:
         os.unlink(path)
-    vlib.log(f"[tlc] {module}: {r['distinct']} states, {len(recs)} scenarios in {r['wall']:.0f}s")
+    vlib.log(f"[tlc] {module}: {r['distinct']} states, {len(exp)} scenarios in {r['wall']:.0f}s")
     states, trans = r["distinct"], r["states"]
     ck.cov["checker_cmd"] = r["cmd"]
     if r["states"] != r["distinct"]:
         raise vlib.ToolError(f"the model is not deterministic: {r['states']} states generated, {r['distinct']} distinct")
-    if tier == "thorough":
-        missing = check_coverage(r["raw_tail"])
-        if missing:
-            raise vlib.ToolError(f"TLC coverage: actions never taken: {missing}")
-    n_sampled = sum(1 for rec in recs if json.dumps(rec["scn"], sort_keys=True) in rnd_keys)
-    n_exh = len(recs) - n_sampled
+    missing = check_coverage(cover)
+    if missing:
+        raise vlib.ToolError(f"model coverage: never observed in any emitted behaviour: {missing}")
+    ck.cov["model_coverage"] = {k: cover[k] for k in sorted(cover)}
+    exp.sort(key=lambda e: json.dumps(e[0], sort_keys=True))
+    n_sampled = sum(1 for scn, _ in exp if json.dumps(scn, sort_keys=True) in rnd_keys)
+    n_exh = len(exp) - n_sampled
     if n_sampled < n_rand * 0.9:
         raise vlib.ToolError(f"only {n_sampled} of {n_rand} sampled scenarios came back from TLC")
+    modes = [modes_for(rng, tier, idx) for idx in range(len(exp))]
 
-    # 3. render, run under every schedule
-    recs.sort(key=lambda rec: json.dumps(rec["scn"], sort_keys=True))
-    items = []
-    exp = {}
-    nontrivial = 0
-    for idx, rec in enumerate(recs):
-        srcs = render(rec["scn"])
-        exp_steps = expected_streams(rec["out"], len(srcs))
-        ms = modes_for(rng, tier, idx)
-        items.append({"id": idx, "src": srcs, "modes": ms, "reuse": True})
-        exp[idx] = (rec, srcs, exp_steps, ms)
-        if interleaves(rec["out"]):
-            nontrivial += 1
-    t1 = time.time()
-    res = run_parallel(binary, items, max(2, min(14, ncpu - 2)))
-    vlib.log(f"[replay] {len(items)} scenarios in {time.time() - t1:.0f}s")
+    def item(idx):
+        return {"id": idx, "src": render(exp[idx][0]), "modes": modes[idx], "reuse": True}
 
-    # 4. compare
+    # 3. + 4. render, run under every schedule, compare (in chunks: results are large)
     evals = 0
     yields = 0
-    jobs_total = 0
-    failures = []   # (size, idx, mode, mismatches)
-    drifts = []
-    for idx, (rec, srcs, exp_steps, ms) in exp.items():
-        got = res.get(idx)
-        if got is None:
-            raise vlib.ToolError(f"no result for scenario {idx}")
-        if "res" not in got:
-            failures.append((scn_size(rec["scn"]), idx, {"m": "process"}, [("panic", 0, None, got.get("panic") or got.get("abort"))]))
-            continue
-        jobs_total += sum(1 for ev in rec["out"] if ev["e"] == "run")
-        for mode, g in zip(ms, got["res"]):
-            evals += 1
-            bad = compare(rec, exp_steps, mode, g)
-            if mode["m"] == "async" and "steps" in g:
-                yields += sum(max(0, s.get("polls", 1) - 1) for s in g["steps"])
-            hard = [b for b in bad if b[0] != "j"]
-            if hard:
-                failures.append((scn_size(rec["scn"]), idx, mode, hard))
-            elif bad:
-                drifts.append((idx, mode, bad))
-    for idx in (0, len(recs) // 2, len(recs) - 1):
-        rec, srcs, exp_steps, ms = exp[idx]
-        ck.sample({"scenario": rec["scn"], "script": srcs, "expected_prints": [proj(s, "p") for s in exp_steps]}, cap=3)
+    jobs_total = sum(jobs_in(es) for _, es in exp)
+    failures = []       # (size, idx, mode, mismatches)
+    drifts = []         # (idx, mode, mismatches)
+    kept = {}           # idx -> full result of scenarios that disagree somewhere (for classification)
+    traces = []         # ((idx, label), events) recorded inside SimpleJobExecutor by the hook
+    have_hook = False
+    t1 = time.time()
+    for lo in range(0, len(exp), CHUNK):
+        idxs = range(lo, min(lo + CHUNK, len(exp)))
+        res = run_parallel(binary, [item(i) for i in idxs], procs)
+        for idx in idxs:
+            scn, exp_steps = exp[idx]
+            got = res.get(idx)
+            if got is None:
+                raise vlib.ToolError(f"no result for scenario {idx}")
+            if "res" not in got:
+                failures.append((scn_size(scn), idx, {"m": "process"}, [("panic", 0, None, got.get("panic") or got.get("abort"))]))
+                continue
+            have_hook = have_hook or bool(got.get("hook"))
+            flat = flatten_modes(modes[idx], got["res"])
+            asy = [k for k, (m, g) in enumerate(flat) if m["m"] == "async"]
+            pick = set(asy[:1] + asy[-1:] + ([asy[idx % len(asy)]] if asy else []))
+            disagrees = False
+            for k, (mode, g) in enumerate(flat):
+                evals += 1
+                bad = compare(exp_steps, mode, g)
+                if mode["m"] == "async" and "steps" in g:
+                    yields += sum(max(0, s.get("polls", 1) - 1) for s in g["steps"][0::2])
+                if g.get("jobs") is not None and (mode["m"] != "async" or k in pick):
+                    traces.append(((idx, k), g["jobs"]))
+                hard = [b for b in bad if b[0] != "j"]
+                if hard:
+                    failures.append((scn_size(scn), idx, mode, hard))
+                elif bad:
+                    drifts.append((idx, mode, bad))
+                disagrees = disagrees or bool(bad)
+            if disagrees:
+                kept[idx] = got
+        del res
+    vlib.log(f"[replay] {len(exp)} scenarios, {evals} executions in {time.time() - t1:.0f}s")
+    for idx in (0, len(exp) // 2, len(exp) - 1):
+        scn, exp_steps = exp[idx]
+        ck.sample({"scenario": scn, "script": render(scn), "expected_prints": [proj(s, "p") for s in exp_steps]}, cap=3)
+
+    # 4a. mode (B): events recorded inside SimpleJobExecutor (cfg(boa_verif) hook, if the tree has it)
+    #     validated against JobQueue.tla: FIFO, each job once, queue empty when run_jobs returns
+    hook_states = 0
+    if have_hook:
+        t2 = time.time()
+        hook_states, rejected = validate_job_traces(traces, MAX_REPORTED)
+        vlib.log(f"[trace] {len(traces)} SimpleJobExecutor traces validated against JobQueue.tla in {time.time() - t2:.0f}s, "
+                 f"{len(rejected)} rejected")
+        for (idx, k), at, evs in rejected:
+            scn, exp_steps = exp[idx]
+            mode = flatten_modes(modes[idx], kept[idx]["res"])[k][0] if idx in kept else {"m": "sync"}
+            failures.append((scn_size(scn), idx, mode, [("q", at, "a behaviour of JobQueue.tla", evs)]))
+    else:
+        vlib.log("[trace] the engine has no promise job event hook (work/proposals/C16-hook): SimpleJobExecutor is "
+                 "checked through print traces only")
+    ck.cov["job_hook_present"] = have_hook
+    hook_traces = len(traces) if have_hook else 0
+    del traces
 
     # 4b. classify disagreements against the named deviations of the model (open known findings): a
     #     scenario is explained iff EVERY schedule's observation equals, in every projection, what the
     #     model prescribes with the deviation switched on (expectations again from TLC)
     explained = set()
     suspects = sorted({f[1] for f in failures} | {d[0] for d in drifts})
-    cand = [idx for idx in suspects if uses_yield_star(exp[idx][0]["scn"])]
+    cand = [idx for idx in suspects if uses_yield_star(exp[idx][0]) and idx in kept]
     if cand:
         qpath = os.path.join(vlib.WORK, f"c16-quirk-{os.getpid()}.ndjson")
         with open(qpath, "w") as f:
             for idx in cand:
-                f.write(json.dumps(exp[idx][0]["scn"]) + "\n")
+                f.write(json.dumps(exp[idx][0]) + "\n")
+        qexp = {}
+
+        def on_q(rec):
+            scn = rec["scn"]
+            qexp[json.dumps(scn, sort_keys=True)] = expected_streams(rec["out"], 2 if scn["late"] else 1)
+
         try:
-            rq, recsq = tlc_scenarios("MCPromisesFile", workers, coverage=False, env_extra={"SCN": qpath},
-                                      cfg="MCPromisesFileQuirk.cfg")
+            tlc_scenarios("MCPromisesFile", workers, coverage=False, env_extra={"SCN": qpath},
+                          cfg="MCPromisesFileQuirk.cfg", on_replay=on_q)
         finally:
             os.unlink(qpath)
-        qexp = {json.dumps(rec["scn"], sort_keys=True): rec for rec in recsq}
         for idx in cand:
-            rec, srcs, exp_steps, ms = exp[idx]
-            q = qexp.get(json.dumps(rec["scn"], sort_keys=True))
-            if q is None:
+            q_steps = qexp.get(json.dumps(exp[idx][0], sort_keys=True))
+            if q_steps is None:
                 continue
-            q_steps = expected_streams(q["out"], len(srcs))
-            got = res[idx]
-            if "res" in got and all(not compare(q, q_steps, mode, g) for mode, g in zip(ms, got["res"])):
+            flat = flatten_modes(modes[idx], kept[idx]["res"])
+            if all(not compare(q_steps, mode, g) for mode, g in flat):
                 explained.add(idx)
         vlib.log(f"[classify] {len(explained)} of {len(cand)} disagreeing yield* scenarios match the model with "
                  f"deviation ysReturnAwait exactly")
     for idx in sorted(explained):
-        rec, srcs, exp_steps, ms = exp[idx]
-        ck.failure(KNOWN_YS_RETURN, {"scenario": rec["scn"], "script": srcs})
+        ck.failure(KNOWN_YS_RETURN, {"scenario": exp[idx][0], "script": render(exp[idx][0])})
     failures = [f for f in failures if f[1] not in explained]
     drifts = [d for d in drifts if d[0] not in explained]
 
@@ -574,23 +687,27 @@ def run(tier, replay=None):
     for size, idx, mode, bad in failures:
         if reported >= MAX_REPORTED:
             break
-        rec, srcs, exp_steps, ms = exp[idx]
+        scn, exp_steps = exp[idx]
         if mode["m"] == "process":
             bad2 = bad
         else:
-            # same mode sequence on a fresh process (the sync/async modes of a scenario share one context)
-            again = vlib.run_lines(binary, [{"id": idx, "src": srcs, "modes": ms, "reuse": True}]).get(idx, {})
-            g2 = again.get("res", [None] * len(ms))[ms.index(mode)] if "res" in again else again
-            bad2 = [b for b in compare(rec, exp_steps, mode, g2) if b[0] != "j"]
+            # same schedule sequence on a fresh process (the sync/async modes of a scenario share one context)
+            again = vlib.run_lines(binary, [item(idx)]).get(idx, {})
+            flat2 = flatten_modes(modes[idx], again["res"]) if "res" in again else []
+            g2 = next((g for m, g in flat2 if m["m"] == mode["m"] and m.get("budget") == mode.get("budget")), again)
+            bad2 = [b for b in compare(exp_steps, mode, g2) if b[0] != "j"]
+            if bad[0][0] == "q" and isinstance(g2, dict) and g2.get("jobs") is not None:
+                _st, rej = validate_job_traces([((idx, 0), g2["jobs"])], 1)
+                bad2 = [("q", rej[0][1], "a behaviour of JobQueue.tla", rej[0][2])] if rej else bad2
         if not bad2:
             raise vlib.ToolError(f"non-reproducible disagreement on scenario {idx} mode {mode}")
         kind = bad2[0][0]
-        sig = {"scn": rec["scn"], "mode": mode["m"], "what": kind}
+        sig = {"scn": scn, "mode": mode["m"], "what": kind}
         key = json.dumps(sig, sort_keys=True)
         if key in seen_sig:
             continue
         seen_sig.add(key)
-        detail = {"scenario": rec["scn"], "script": srcs, "mode": mode, "projection": kind, "step": bad2[0][1],
+        detail = {"scenario": scn, "script": render(scn), "mode": mode, "projection": kind, "step": bad2[0][1],
                   "expected": bad2[0][2], "actual": bad2[0][3], "failing_scenarios_total": len({f[1] for f in failures})}
         if ck.failure(sig, detail):
             reported += 1
@@ -598,27 +715,29 @@ def run(tier, replay=None):
         raise vlib.ToolError("failures found but none reported")
     for idx, mode, bad in drifts[:3]:
         vlib.log(f"MODEL-DRIFT: job enqueue/run events differ from the model although prints agree: scenario {idx} "
-                 f"{json.dumps(exp[idx][0]['scn'])[:300]} expected {bad[0][2]} actual {bad[0][3]}")
+                 f"{json.dumps(exp[idx][0])[:300]} mode {mode} expected {bad[0][2]} actual {bad[0][3]}")
     ck.drift += len(drifts)
 
-    ck.cov.update(states=states, transitions=trans, traces_validated_against_impl=evals, scenarios=len(recs),
-                  scenarios_exhaustive=n_exh, scenarios_sampled=n_sampled, evaluations=evals,
-                  distinct_nontrivial=nontrivial, jobs_in_model=jobs_total, async_yields_observed=yields,
+    ck.cov.update(states=states + hook_states, transitions=trans + hook_states,
+                  traces_validated_against_impl=evals, executor_traces_validated_against_jobqueue=hook_traces,
+                  scenarios=len(exp), scenarios_exhaustive=n_exh, scenarios_sampled=n_sampled, evaluations=evals,
+                  distinct_nontrivial=nontrivial[0], jobs_in_model=jobs_total, async_yields_observed=yields,
                   failing_scenarios=len({f[1] for f in failures}), explained_by_known_deviation=len(explained),
                   budgets=budgets(),
                   rule="one replay per (scenario, schedule); a scenario is non-trivial when jobs of at least two "
                        "different tasks interleave in the model's order (owner of a job = task of the first label "
                        "it prints; pattern a..b..a)")
     floor = 1500 if tier == "quick" else 15000
-    if nontrivial < floor:
-        raise vlib.ToolError(f"vacuity guard: only {nontrivial} non-trivial scenarios (< {floor})")
-    if yields < len(recs):
+    if nontrivial[0] < floor:
+        raise vlib.ToolError(f"vacuity guard: only {nontrivial[0]} non-trivial scenarios (< {floor})")
+    if yields < len(exp):
         raise vlib.ToolError(f"vacuity guard: budgeted evaluation almost never yielded ({yields} yields)")
-    if jobs_total < 5 * len(recs):
+    if jobs_total < 5 * len(exp):
         raise vlib.ToolError("vacuity guard: scenarios enqueue almost no jobs")
     ck.assumptions += [
-        "expected orders come from Promises.tla, a transcription of ECMA-262 27.2 / 27.7 for the scenario language",
-        "job enqueue/run events of the harness's own FIFO executor are compared as MODEL-DRIFT only",
+        "expected orders come from Promises.tla, a transcription of ECMA-262 27.2 / 27.6.3 / 27.7 for the scenario language",
+        "job enqueue/run events (harness FIFO executor, SimpleJobExecutor hook) are compared with the model's as MODEL-DRIFT only",
         "seeded scenarios beyond the exhaustive universes are inputs only; their expectations are computed by TLC",
+        "a budget sweep stops after the first budget under which no evaluation yielded (larger budgets give the same execution); 2^20 always runs",
     ]
     return ck.finish()
